@@ -227,7 +227,7 @@ def rmSvc (l : Local) (id : Id) (ks : List Id) : Res × Local :=
 /-- `UpdateCheck` (status/output change of a registered check) -/
 def updChk (l : Local) (k : Id) (st : Nat) : Local :=
   match l.chks.get? k with
-  | some (.ent d tok loc b false) =>
+  | some (.ent d tok loc _ false) =>
     if d.status = st then l
     else { l with chks := l.chks.set k (.ent { d with status := st } tok loc false false) }
   | _ => l
